@@ -6,15 +6,21 @@ HERE = os.path.dirname(os.path.dirname(os.path.abspath(__file__)))
 TB = ('Trusted base: rustc MIR construction and layout; tools/mirfacts exporter; gbsa.absint transfer functions '
       '(intervals x known-bits, self-tested against Python integers); reference tables in gbsa/. ')
 
+VL = (' Value-level rules use a bit-precise relational abstract domain (one canonical ROBDD per bit of every value, '
+      'gbsa/bdd.py): summaries are constructed from the MIR terms / the emitted x86-64 bytes / the reference semantics and '
+      'compared as canonical forms; nothing is executed or searched; leaving the modelled fragment is ANALYSIS-ERROR, '
+      'never a verdict.')
+
 CHECKS = {
  'C04': dict(
     technique='cross-configuration comparison of step tails, engine selection by address, loop-exit relation of both engines',
     text='Does NOT decide the whole-program statement (runtime behaviour); it is reduced to C01, C02, C03 plus three '
          'necessary structural clauses that are decided: for every status code both build configurations perform the same '
-         'effects after the engine returns; the jit build runs translated code iff PC < 0x8000 and otherwise the same '
+         'effects after the engine returns; the jit build selects translated code for ROM addresses only and otherwise the same '
          'interpreter entry point; both engines end blocks on is_block_end of the decoder output and their loop-exit '
-         'conditions coincide on every (terminator, start region, next region) class.',
-    note=TB + 'Inherits the limits of C01-C03 (no x86 semantics of template bytes); per-step equality of device state is not claimed.',
+         'predicates are the same Boolean function of (terminator, block start, next address) on the translator domain '
+         '(bit-precise comparison).',
+    note=TB + 'Inherits the limits of C01-C03; per-step equality of device state is not claimed.',
     ref='DESIGN.md#c04'),
  'C13': dict(
     technique='abstract interpretation of the Timer methods; one symbolic iteration of the catch-up loop (field-sensitive loop havoc)',
@@ -77,7 +83,7 @@ CHECKS = {
          'of the key used by BTreeMap::get (lookup) and BTreeMap::insert (translation) depends - by data or control '
          'dependence within the same run_code_block activation - on the bank the controller maps now; lookup and insert '
          'use the same injective key; translation reads the same bytes the interpreter fetches; only ROM is cached and '
-         'only under the can_dynarec guard; a block does not extend past the region its key belongs to. The "any '
+         'only under the can_dynarec guard (accepted set is a subset of 0..0x7fff, decided bit-precisely); a block does not extend past the region its key belongs to. The "any '
          'history" quantifier is discharged structurally: the key either depends on the live bank on every path or not.',
     note=TB + 'BTreeMap get/insert keyed by the passed u32 (std contract). Loops summarised by field-sensitive havoc.',
     ref='DESIGN.md#c03'),
@@ -103,7 +109,8 @@ CHECKS = {
  'C09': dict(
     technique='must-pass-through + def-use on the step functions, fan-out and who-may-call analysis, per-opcode congruence',
     text='Decides: clocks delivered = 4 x machine cycles consumed, exactly once per completing path of every step '
-         'function, before handle_interrupt, in both configurations; the same count is handed unchanged to IO, timer and '
+         'function, before handle_interrupt, in both configurations; every path of handle_interrupt that dispatches adds exactly '
+         '5 machine cycles and every other path none; the same count is handed unchanged to IO, timer and '
          'LCD; device ticks have no other callers; every instruction charges a positive multiple of 4 clocks in both '
          'engines and every delivered count is a multiple of 4. run_frame termination is NOT decided (premises only).',
     note=TB + 'Liveness of run_frame argued on paper from rules 2, 6 and C14.',
@@ -113,7 +120,8 @@ CHECKS = {
     text='Decides over all 65536 addresses (by intervals), for every controller type: the read and write ladders '
          'partition the address space exactly at the hardware region bounds with the documented handler per region; '
          'read and write of every RAM region address the same cell; index functions are injective per region and '
-         'regions sharing a buffer have disjoint index sets (single-address exceptions included); no store to ROM is '
+         'regions sharing a buffer have disjoint index sets (single-address exceptions included); consecutive banks of a banked '
+         'region are further apart than the largest in-bank offset; no store to ROM is '
          'reachable through the bus; the fetch view equals the data view in ROM / work RAM / high RAM; unmapped regions '
          'read constant and ignore writes; each readable I/O register returns its defined writable bits after a write '
          '(set_byte then get_byte on the resulting abstract state).',
@@ -142,46 +150,57 @@ CHECKS = {
          'are accepted.',
     ref='DESIGN.md#c12'),
  'C01': dict(
-    technique='per-opcode abstract interpretation of Emitter::encode_op (template sequence + emitted bytes) vs interpreter summaries',
+    technique='per-opcode abstract interpretation of Emitter::encode_op (template sequence + exact emitted bytes); abstract execution of the emitted x86-64 bytes and of the trampolines over a bit-precise relational domain (ROBDD per bit), compared with the interpreter path summaries',
     text='Decides, for all 500 defined encodings and both outcomes of conditional forms, agreement between the '
          'composition layer of the emitter and the interpreter: PC effect, status class, bus accesses (kind, address, '
          'value, order; helper byte order derived from the helper bodies; helper identity taken from the embedded '
          'function address), host stack discipline, host branch displacement and polarity, register-file layout vs '
          'prologue/epilogue displacements, exhaustiveness; and checks the necessary conditions that written guest '
-         'registers and per-bit flag effect classes agree. It does NOT interpret the x86-64 bytes inside the emit_* '
-         'templates, so value-level equality of translated data operations is not decided.',
-    note=TB + 'Template effect table in gbsa/emitmodel.py (fails closed on unknown templates). x86 semantics of template '
-         'bytes are outside this check.',
+         'registers and per-bit flag effect classes agree. Value level (rule C01.10): the exact emitted x86-64 bytes of every '
+         'encoding, abstractly executed from the documented register assignment, leave every bit of EAX/EBX/EDX/ECX, SP and PC '
+         '(mod 2^16) equal to the interpreter for every operand, perform the same byte accesses through the embedded helper '
+         'addresses, keep the host stack balanced and never branch on an undefined value; rule C01.11: every slice the '
+         'translator hands to decode() is at least as long as the longest instruction; rule C01.12: entry trampoline, block '
+         'exit and exit trampoline load/store every Registers field, return R14 and restore callee-saved registers.',
+    note=TB + 'Template effect table in gbsa/emitmodel.py (fails closed on unknown templates). gbsa/x86.py (decoder + '
+         'transfer functions for the instruction subset the emitter uses; SDM semantics and the sysv64 ABI are trusted; '
+         'anything outside the subset is ANALYSIS-ERROR). PC is compared modulo 2^16.' + VL,
     ref='DESIGN.md#c01'),
  'C05': dict(
-    technique='per-opcode abstract interpretation of run_op: decode table, bit provenance of F, interval/known-bit bounds',
+    technique='per-opcode abstract interpretation of run_op: decode table, bit provenance of F, interval/known-bit bounds; value-level comparison of every interpreter path with SM83 reference semantics over a bit-precise relational domain (ROBDD per bit)',
     text='Decides for all 500 defined encodings: decoder output equals the x/y/z reference (variant, registers, '
          'immediates, bit masks); register pairs stay within 16 bits and the low nibble of F stays zero at every exit. '
          'Necessary conditions checked: per-bit flag effect classes equal the SM83 flag column, written registers / '
          'sources are the architectural ones (pure moves bit-exact), carry and half-carry decisions depend on every '
-         'operand bit they must depend on. Value-level arithmetic (e.g. the DAA table) is not decided.',
-    note=TB + 'Entry invariant (16-bit pairs, F low nibble zero) is the invariant rules 4/5 re-establish.',
+         'operand bit they must depend on. Value level (C05.7): for every defined encoding and interpreter path, every bit of '
+         'A, F, BC, DE, HL (and SP / bus addresses and bytes of data instructions) is the same function of the input bits as '
+         'in the SM83 reference semantics (gbsa/sm83sem.py), for all operand, register and flag values at once, including '
+         'DAA, rotates through carry, 16-bit adds, SP+e8 and POP AF; a difference is reported with a concrete operand.',
+    note=TB + 'Entry invariant (16-bit pairs, F low nibble zero) is the invariant rules 4/5 re-establish. The reference '
+         'semantics in gbsa/sm83sem.py is trusted.' + VL,
     ref='DESIGN.md#c05'),
  'C02': dict(
-    technique='per-opcode abstract interpretation of interpreter and emitter; cycle-constant agreement per outcome',
+    technique='per-opcode abstract interpretation of interpreter and emitter; cycle-constant agreement per outcome; abstract execution of the emitted x86-64 bytes (R15W delta) over a bit-precise relational domain',
     text='Decides, for each of the 500 defined encodings and both outcomes of the 16 conditional forms (516 cases), '
          'that the machine cycles the emitted code adds to R15 equal the cycles the interpreter adds '
          '(decoder clocks/4 + taken extras), that clock counts are multiples of 4, that increments fit imm8, and that '
          'Registers.cycles has no writers beyond the per-instruction sites; sums over blocks follow because both '
-         'engines add per-instruction constants.',
-    note=TB + 'The bytes of the add-r15 template are not interpreted; span membership of conditional increments is '
-         'derived from the emitted host-branch displacement byte.',
+         'engines add per-instruction constants. Value level (C02.4): abstract execution of the emitted bytes changes '
+         'R15W by exactly the interpreter path cycles for every operand and outcome; C02.5: the counter is loaded by the '
+         'entry trampoline (with cycles left pending by an interrupt dispatch) and stored back by the exit trampoline.',
+    note=TB + 'Cycles are compared modulo 2^16 (the call frame keeps 16 bits).' + VL,
     ref='DESIGN.md#c02'),
  'C06': dict(
-    technique='per-opcode conditional constant propagation of decode/run_op compared with generated SM83 tables',
+    technique='per-opcode conditional constant propagation of decode/run_op compared with generated SM83 tables; value-level comparison of PC / SP / stack bytes with SM83 reference semantics over a bit-precise relational domain',
     text='Decides for all 511 encodings (x taken/not-taken, x sign of e8): decoder length = SM83 length = interpreter '
          'fall-through advance; decoder clocks/4 + path extras = SM83 cycles with the right condition polarity; taken '
          'paths load PC from imm16/HL/vector/popped word/PC+2+sext(e8); PUSH/CALL/RST/POP/RET/RETI stack protocol '
          '(addresses mod 2^16, byte order, SP update); is_block_end exactly on control/halt/IME variants; the 11 '
          'undefined opcodes decode to Invalid and diverge untouched; status codes; operand fetch never indexes past '
-         'the slice run_next_op hands to decode() (window derived from the fetch code).',
+         'the slice run_next_op hands to decode() (window derived from the fetch code). Value level (C06.8): PC mod 2^16, SP '
+         'and every stack address and byte equal the SM83 reference for all operands, and no operand makes run_op diverge.',
     note=TB + 'Assumes 16-bit register pairs at instruction entry (C05.4). PC above 0xffff is not reduced by the '
-         'interpreter and is reported as information only.',
+         'interpreter and is reported as information only.' + VL,
     ref='DESIGN.md#c06'),
  'C18': dict(
     technique='effect confinement over the resolved call graph + path enumeration with known-bits',
